@@ -10,8 +10,10 @@ import (
 	"context"
 	"crypto/ed25519"
 	"fmt"
+	"runtime"
 	"strings"
 	"sync"
+	"sync/atomic"
 	"testing"
 	"time"
 
@@ -268,6 +270,8 @@ func TestVerifC13Child(t *testing.T) {
 		vEmit(c)
 	}
 	vC13PeerSetEndToEnd(r)
+	vC13ConcurrentWatchers(r)
+	vC13ConcurrentStateWaiters(r)
 }
 
 // ---- the server's peer-set channel, end to end over real sockets: the channel is obtained, then
@@ -384,4 +388,105 @@ func vC13PeerSetEndToEnd(r *vRand) {
 			Info: map[string]interface{}{"how": how, "steps": steps, "outcome": strings.Join(steps, " ")}})
 		vStop(ls.S, 6*time.Second)
 	}
+}
+
+
+// Several watchers obtain the peer-set channel at the same instant (spinning barrier), right after a change (when no channel
+// exists): every one of them must be notified of the next change.
+func vC13ConcurrentWatchers(r *vRand) {
+	rounds := 1500
+	if vThorough() {
+		rounds = 12000
+	}
+	s := NewServer()
+	lost, at := 0, -1
+	for i := 0; i < rounds && lost == 0; i++ {
+		const n = 6
+		chs := make([]<-chan struct{}, n)
+		var wg sync.WaitGroup
+		var ready, goFlag int32
+		for g := 0; g < n; g++ {
+			wg.Add(1)
+			go func(g int) {
+				defer wg.Done()
+				atomic.AddInt32(&ready, 1)
+				for atomic.LoadInt32(&goFlag) == 0 {
+				}
+				chs[g] = s.GetConnectionNotifyChan()
+			}(g)
+		}
+		for atomic.LoadInt32(&ready) < n {
+			runtime.Gosched()
+		}
+		atomic.StoreInt32(&goFlag, 1)
+		wg.Wait()
+		// a change of the peer set: a session of a fresh key comes (even rounds) or goes (odd rounds)
+		key := vKey(40 + (i/2)%8)
+		if i%2 == 0 {
+			s.connMgr.registerConnection(key, vFakeSrvTr{vNewFakeTr()})
+		} else {
+			s.connMgr.mu.Lock()
+			s.connMgr.removeConnection(key)
+			s.connMgr.mu.Unlock()
+		}
+		for g := 0; g < n; g++ {
+			select {
+			case <-chs[g]:
+			case <-time.After(500 * time.Millisecond):
+				lost++
+				at = i
+			}
+		}
+	}
+	c := vCase{Class: "peerset/concurrent-watchers", Sig: "concurrent-watchers", Info: map[string]interface{}{"rounds": rounds, "watchers": 6, "outcome": fmt.Sprintf("lost=%d", lost)}}
+	if lost > 0 {
+		c.Fail = fmt.Sprintf("peer-set-change-not-notified/concurrent-watchers/round-%d", at)
+	}
+	vEmit(c)
+}
+
+// The same for the connectivity state of a client: waiters which obtain their channel at the same instant are all woken.
+func vC13ConcurrentStateWaiters(r *vRand) {
+	rounds := 1500
+	if vThorough() {
+		rounds = 12000
+	}
+	csm := &connectivityStateManager{}
+	states := []connectivity.State{connectivity.Connecting, connectivity.Ready, connectivity.Idle, connectivity.TransientFailure}
+	lost, at := 0, -1
+	for i := 0; i < rounds && lost == 0; i++ {
+		const n = 6
+		chs := make([]<-chan struct{}, n)
+		var wg sync.WaitGroup
+		var ready, goFlag int32
+		for g := 0; g < n; g++ {
+			wg.Add(1)
+			go func(g int) {
+				defer wg.Done()
+				atomic.AddInt32(&ready, 1)
+				for atomic.LoadInt32(&goFlag) == 0 {
+				}
+				chs[g] = csm.getNotifyChan()
+			}(g)
+		}
+		for atomic.LoadInt32(&ready) < n {
+			runtime.Gosched()
+		}
+		atomic.StoreInt32(&goFlag, 1)
+		wg.Wait()
+		csm.updateState(states[i%len(states)])
+		for g := 0; g < n; g++ {
+			select {
+			case <-chs[g]:
+			case <-time.After(500 * time.Millisecond):
+				lost++
+				at = i
+			}
+		}
+	}
+	c := vCase{Class: "notify/concurrent-waiters", Sig: "concurrent-waiters", Info: map[string]interface{}{"rounds": rounds, "waiters": 6, "outcome": fmt.Sprintf("lost=%d", lost)}}
+	if lost > 0 {
+		c.Fail = fmt.Sprintf("lost-wakeup/concurrent-waiters/round-%d", at)
+	}
+	vEmit(c)
 }
